@@ -2,7 +2,7 @@
 # all_thorough.sh <seed>: every thorough tier in turn (hours); one line per check in /tmp/thorough.out
 S=${1:-1}
 cd /verif
-for p in C15 C14 C13 C12 C11 C07 C06 C09 C03 C02 C16 C18 C17 C05 C04 C10 C01 C08; do
+for p in ${LCV_LIST:-C15 C14 C13 C12 C11 C07 C06 C09 C03 C02 C16 C18 C17 C05 C04 C10 C01 C08}; do
   t0=$(date +%s)
   VERIF_SEED=$S ./check $p thorough > /tmp/thorough-$p.out 2>&1; rc=$?
   echo "$p rc=$rc $(( $(date +%s) - t0 ))s $(grep -E '^\[check\] C' /tmp/thorough-$p.out | tail -1)"
